@@ -7,3 +7,4 @@ for t in cbmc goto-cc z3 gcc clang-14 python3 python3-vt; do
     command -v $t >/dev/null || { echo "missing tool $t"; exit 1; }
 done
 python3 lib/validate_models.py
+python3 lib/selftest_native.py
